@@ -30,6 +30,11 @@ func (f *Frame) Read(r io.Reader) ([]byte, error) {
 	buf := framePool.Get().(*[]byte) // nolint:errcheck
 	defer framePool.Put(buf)
 
+	// An empty payload (e.g. the empty string) is not the end of the stream
+	if f.size == 0 {
+		return []byte{}, nil
+	}
+
 	lr := io.LimitReader(r, int64(f.size))
 	var bin []byte
 	var read int
